@@ -74,6 +74,15 @@ pub fn run(ctx: &Ctx, ev: &mut Ev) {
             for pre in [&b"\t\n\x0c\r "[..], b"   ", b"\x20\x0b\x20"] { for post in [&b" \t\n\x0c\r"[..], b"\x0c\x0c\x0c", b"\x20\x85"] { let mut m = pre.to_vec(); m.extend_from_slice(lab); m.extend_from_slice(post); check(&l, ev, &m, true); } }
             // inner whitespace
             for i in 1..lab.len() { let mut m = lab.clone(); m.insert(i, b' '); check(&l, ev, &m, true); }
+            // ... with every whitespace byte (and two look-alikes) and every upper/lower combination of the two sides
+            // (the scanner treats lower-case, upper-case and whitespace bytes in separate arms)
+            for i in 1..lab.len() { for &w in [0x09u8, 0x0A, 0x0C, 0x0D, 0x20, 0x0B, 0x00].iter() { for cs in 0..4 {
+                if tiny && (i + cs) % 4 != 0 { continue; }
+                let mut m: Vec<u8> = lab[..i].iter().map(|b| if cs & 1 != 0 { b.to_ascii_uppercase() } else { *b }).collect();
+                m.push(w); if cs == 3 { m.push(w); }
+                m.extend(lab[i..].iter().map(|b| if cs & 2 != 0 { b.to_ascii_uppercase() } else { *b }));
+                check(&l, ev, &m, true);
+            } } }
             // very long paddings
             if !tiny { let mut long = vec![b' '; 5000]; long.extend_from_slice(lab); long.extend(vec![b'\n'; 5000]); check(&l, ev, &long, true); }
             // case masks
